@@ -94,6 +94,7 @@ pub mod sync {
             let file    = Location::caller().file().rsplit('/').next().unwrap_or("").to_string();
             let class   = crate::scheduler::verif_class(std::any::type_name::<T>(), &file);
             let id      = super::next_id(&class);
+            super::log("new", &class, id, String::new());
             Mutex { class, id, inner: rt::sync::Mutex::new(t) }
         }
 
